@@ -126,32 +126,53 @@ Proof.
   rewrite andb_true_iff, !negb_true_iff, !N.eqb_neq in H5. exact H5.
 Qed.
 
-Lemma dec_attr_val_enc m a : attr_wf a = true ->
-  dec_attr_val m (a_flags a) (a_type a) (a_value a) = Some a.
+Lemma dec_attr_val_enc m s14 s15 a : attr_wf a = true ->
+  (is_reach a = true -> s14 = false) -> (is_unreach a = true -> s15 = false) ->
+  dec_attr_val m s14 s15 (a_flags a) (a_type a) (a_value a) = Some a.
 Proof.
-  intros H. apply attr_wf_inv in H as (_ & _ & _ & _ & H).
+  intros H H14 H15. apply attr_wf_inv in H as (_ & _ & _ & _ & H).
   destruct a as [fl ty v|fl nh rsv n|fl n]; cbn [a_flags a_type a_value]; unfold dec_attr_val.
-  - destruct H as [H14 H15]. apply N.eqb_neq in H14, H15. rewrite H14, H15. reflexivity.
-  - destruct H as [_ Hn]. change (14 =? 14) with true. cbv iota.
+  - destruct H as [E14 E15]. apply N.eqb_neq in E14, E15. rewrite E14, E15. reflexivity.
+  - destruct H as [_ Hn]. rewrite (H14 eq_refl). change (14 =? 14) with true. cbv iota. cbn [negb andb].
     unfold enc_afisafi, enc_u16. cbn [app].
     rewrite take_n_app, u16_enc, dec_mpnlri_enc by exact Hn. reflexivity.
-  - change (15 =? 14) with false. change (15 =? 15) with true. cbv iota.
+  - rewrite (H15 eq_refl). change (15 =? 14) with false. change (15 =? 15) with true. cbn [negb andb].
     unfold enc_afisafi, enc_u16. cbn [app].
     rewrite u16_enc, dec_mpnlri_enc by exact H. reflexivity.
+Qed.
+
+(* bookkeeping of the "already seen" flags against the number of MP attributes still to come *)
+Definition okc (s : bool) (n : nat) : Prop := if s then n = 0%nat else (n <= 1)%nat.
+
+Lemma count_if_cons {A} (f : A -> bool) a l :
+  count_if f (a :: l) = ((if f a then 1 else 0) + count_if f l)%nat.
+Proof. unfold count_if. cbn [filter]. destruct (f a); reflexivity. Qed.
+
+Lemma okc_step m s (f : attr -> bool) k a l : (forall x, f x = (a_type x =? k)) ->
+  okc s (count_if f (a :: l)) ->
+  (f a = true -> s = false) /\ okc (seen m s (a_type a) k) (count_if f l).
+Proof.
+  intros Hf. rewrite count_if_cons. unfold seen. rewrite <- Hf. destruct (f a) eqn:Ea.
+  - destruct s; cbn [okc]; intros H; [lia|]. assert (count_if f l = 0%nat) as -> by lia.
+    split; [reflexivity|]. destruct (strict m); cbn; lia.
+  - rewrite andb_false_r, orb_false_r. cbn [Nat.add]. intros H. split; [discriminate|exact H].
 Qed.
 
 Lemma enc_attrs_cons a l : enc_attrs (a :: l) = enc_attr a ++ enc_attrs l.
 Proof. reflexivity. Qed.
 
-Lemma dec_enc_attrs m l : forall fuel,
+Lemma dec_enc_attrs m l : forall s14 s15 fuel,
   forallb attr_wf l = true ->
+  okc s14 (count_if is_reach l) -> okc s15 (count_if is_unreach l) ->
   (length (enc_attrs l) <= fuel)%nat ->
-  dec_attrs m fuel (enc_attrs l) = Some l.
+  dec_attrs m s14 s15 fuel (enc_attrs l) = Some l.
 Proof.
-  induction l as [|a l IH]; intros fuel Hwf Hf.
+  induction l as [|a l IH]; intros s14 s15 fuel Hwf H14 H15 Hf.
   - destruct fuel; reflexivity.
   - cbn [forallb] in Hwf. apply andb_prop in Hwf as [Ha Hl].
-    pose proof (dec_attr_val_enc m a Ha) as Hv.
+    apply (okc_step m s14 is_reach 14) in H14 as [Ha14 H14]; [|reflexivity].
+    apply (okc_step m s15 is_unreach 15) in H15 as [Ha15 H15]; [|reflexivity].
+    pose proof (dec_attr_val_enc m s14 s15 a Ha Ha14 Ha15) as Hv.
     rewrite enc_attrs_cons in *. rewrite app_length in Hf.
     unfold enc_attr in *. cbn [app length] in Hf.
     destruct fuel as [|fuel]; [lia|].
@@ -191,7 +212,8 @@ Proof.
   intros H. apply wf_inv in H as (Hw & Ha & Hn & Hu & _).
   unfold enc_body, dec_body, enc_u16. cbn [app].
   rewrite u16_enc, take_n_app. cbn [app]. rewrite u16_enc, take_n_app.
-  rewrite !dec_enc_pfxs, dec_enc_attrs by (try assumption; lia).
+  pose proof Hu as Hu'. unfold mp_unique in Hu'. apply andb_prop in Hu' as [Hu1 Hu2]. apply Nat.leb_le in Hu1, Hu2.
+  rewrite !dec_enc_pfxs, dec_enc_attrs by (try assumption; try exact Hu1; try exact Hu2; lia).
   rewrite Hu, orb_true_r. destruct u; reflexivity.
 Qed.
 
@@ -223,34 +245,42 @@ Definition unreach_routes (a : attr) : list (fam * pfx) :=
 
 Lemma no_reach_nil l : count_if is_reach l = 0%nat -> flat_map reach_routes l = [].
 Proof.
-  unfold count_if. induction l as [|a l IH]; [reflexivity|].
-  destruct a; cbn [filter is_reach length flat_map reach_routes app]; try discriminate; exact IH.
+  induction l as [|a l IH]; [reflexivity|]. rewrite count_if_cons.
+  destruct a; cbn [flat_map reach_routes app]; intros H.
+  - apply IH. destruct (is_reach (AGen fl ty v)); simpl in H; lia.
+  - change (is_reach (AReach fl nh rsv n)) with true in H. simpl in H. lia.
+  - apply IH. change (is_reach (AUnreach fl n)) with false in H. exact H.
 Qed.
 
 Lemma no_unreach_nil l : count_if is_unreach l = 0%nat -> flat_map unreach_routes l = [].
 Proof.
-  unfold count_if. induction l as [|a l IH]; [reflexivity|].
-  destruct a; cbn [filter is_unreach length flat_map unreach_routes app]; try discriminate; exact IH.
+  induction l as [|a l IH]; [reflexivity|]. rewrite count_if_cons.
+  destruct a; cbn [flat_map unreach_routes app]; intros H.
+  - apply IH. destruct (is_unreach (AGen fl ty v)); simpl in H; lia.
+  - apply IH. change (is_unreach (AReach fl nh rsv n)) with false in H. exact H.
+  - change (is_unreach (AUnreach fl n)) with true in H. simpl in H. lia.
 Qed.
 
 Lemma first_reach_all l : (count_if is_reach l <= 1)%nat ->
   opt_routes (first_reach l) = flat_map reach_routes l.
 Proof.
-  unfold count_if. induction l as [|a l IH]; [reflexivity|].
-  destruct a; cbn [filter is_reach length flat_map reach_routes app first_reach opt_routes]; intros H.
-  - apply IH. exact H.
-  - rewrite no_reach_nil by (unfold count_if; lia). rewrite app_nil_r. reflexivity.
-  - apply IH. exact H.
+  induction l as [|a l IH]; [reflexivity|]. rewrite count_if_cons.
+  destruct a; cbn [flat_map reach_routes app first_reach opt_routes]; intros H.
+  - apply IH. destruct (is_reach (AGen fl ty v)); simpl in H; lia.
+  - change (is_reach (AReach fl nh rsv n)) with true in H. simpl in H.
+    rewrite no_reach_nil by lia. rewrite app_nil_r. reflexivity.
+  - apply IH. change (is_reach (AUnreach fl n)) with false in H. exact H.
 Qed.
 
 Lemma first_unreach_all l : (count_if is_unreach l <= 1)%nat ->
   opt_routes (first_unreach l) = flat_map unreach_routes l.
 Proof.
-  unfold count_if. induction l as [|a l IH]; [reflexivity|].
-  destruct a; cbn [filter is_unreach length flat_map unreach_routes app first_unreach opt_routes]; intros H.
-  - apply IH. exact H.
-  - apply IH. exact H.
-  - rewrite no_unreach_nil by (unfold count_if; lia). rewrite app_nil_r. reflexivity.
+  induction l as [|a l IH]; [reflexivity|]. rewrite count_if_cons.
+  destruct a; cbn [flat_map unreach_routes app first_unreach opt_routes]; intros H.
+  - apply IH. destruct (is_unreach (AGen fl ty v)); simpl in H; lia.
+  - apply IH. change (is_unreach (AReach fl nh rsv n)) with false in H. exact H.
+  - change (is_unreach (AUnreach fl n)) with true in H. simpl in H.
+    rewrite no_unreach_nil by lia. rewrite app_nil_r. reflexivity.
 Qed.
 
 Definition ann (attrs : list attr) (fp : fam * pfx) : ev := EvA (fst fp) (snd fp) attrs.
@@ -318,10 +348,6 @@ Proof.
   destruct a as [| |fl n]; try discriminate. destruct n as [f ps|afi safi raw]; [destruct ps|destruct raw]; try discriminate; reflexivity.
 Qed.
 
-(* MP attributes of an unsupported AFI/SAFI contribute nothing *)
-Definition mp_other (a : attr) : bool :=
-  match a with AReach _ _ _ (MpPfx _ _) | AUnreach _ (MpPfx _ _) => false | _ => true end.
-
 Lemma unsupported_nothing m u : wf u = true -> forallb mp_other (u_attrs u) = true ->
   events_of_bytes m (encode u) =
     Some (map (ann (u_attrs u)) (map (pair F4U) (u_nlri u)) ++ map wdr (map (pair F4U) (u_wd u))).
@@ -341,18 +367,16 @@ Lemma modes_agree m1 m2 u : wf u = true ->
 Proof. intros H. rewrite !events_exact by exact H. reflexivity. Qed.
 
 (* ---------- where the implementation's mode differs from the RFCs' ---------- *)
-Definition hex_pdu (body : list N) : list N := marker ++ enc_u16 (19 + lenN body) ++ 2 :: body.
-
-(* 10.128.0.0/8 written with a non-zero trailing bit: legal per RFC 4271 4.3 *)
-Definition pdu_trailing : list N := hex_pdu [0;0; 0;0; 9; 10; 129].
 Lemma trailing_bits_diverge :
   events_of_bytes Rfc pdu_trailing = Some [EvA F4U (MkPfx 9 [10; 128]) []]
   /\ events_of_bytes Code pdu_trailing = None.
 Proof. split; vm_compute; reflexivity. Qed.
 
-(* two MP_UNREACH_NLRI attributes: malformed per RFC 7606 3.g; the code's mode uses the first *)
-Definition pdu_dup_mp : list N :=
-  hex_pdu ([0;0; 0;16] ++ [128; 15; 5; 0;2;1; 8; 32] ++ [128; 15; 5; 0;2;1; 8; 48]).
+Lemma dup_mp_bad_diverge :
+  events_of_bytes Rfc pdu_dup_mp_bad = None
+  /\ events_of_bytes Code pdu_dup_mp_bad = Some [EvW F6U (MkPfx 8 [32])].
+Proof. split; vm_compute; reflexivity. Qed.
+
 Lemma dup_mp_diverge :
   events_of_bytes Rfc pdu_dup_mp = None
   /\ events_of_bytes Code pdu_dup_mp = Some [EvW F6U (MkPfx 8 [32])].
@@ -393,18 +417,21 @@ Proof.
   - intros [= <-]. cbn. tauto.
 Qed.
 
-Lemma dec_attr_val_sound fl ty v a : bytes_ok v = true ->
-  dec_attr_val Code fl ty v = Some a -> a_flags a = fl /\ a_type a = ty /\ a_value a = v.
+Lemma dec_attr_val_sound s14 s15 fl ty v a : bytes_ok v = true ->
+  dec_attr_val Code s14 s15 fl ty v = Some a -> a_flags a = fl /\ a_type a = ty /\ a_value a = v.
 Proof.
-  intros Hb. unfold dec_attr_val. destruct (ty =? 14) eqn:E14; [apply N.eqb_eq in E14; subst ty|].
-  - destruct v as [|ah [|al [|sf [|nhl r]]]]; try discriminate.
+  intros Hb. unfold dec_attr_val. destruct ((ty =? 14) && negb s14) eqn:E14.
+  - apply andb_prop in E14 as [E14 _]. apply N.eqb_eq in E14; subst ty.
+    destruct v as [|ah [|al [|sf [|nhl r]]]]; try discriminate.
     destruct (take_n nhl r) as [[nh [|rsv body]]|] eqn:Et; try discriminate.
     destruct (dec_mpnlri Code (u16 ah al) sf body) as [n|] eqn:Ed; [|discriminate].
     intros [= <-]. apply take_n_inv in Et as [-> <-]. apply dec_mpnlri_sound in Ed as (He & Ha & Hs).
     apply bytes_ok_cons in Hb as [_ Hb]. apply bytes_ok_cons in Hb as [Hal _].
     cbn [a_flags a_type a_value]. unfold enc_afisafi. rewrite He, Ha, Hs, u16_inv by exact Hal.
     repeat split; reflexivity.
-  - destruct (ty =? 15) eqn:E15; [apply N.eqb_eq in E15; subst ty|intros [= <-]; repeat split; reflexivity].
+  - destruct ((ty =? 15) && negb s15) eqn:E15;
+      [|destruct (((ty =? 14) || (ty =? 15)) && Nat.ltb (length v) 3); [discriminate|intros [= <-]; repeat split; reflexivity]].
+    apply andb_prop in E15 as [E15 _]. apply N.eqb_eq in E15; subst ty.
     destruct v as [|ah [|al [|sf body]]]; try discriminate.
     destruct (dec_mpnlri Code (u16 ah al) sf body) as [n|] eqn:Ed; [|discriminate].
     intros [= <-]. apply dec_mpnlri_sound in Ed as (He & Ha & Hs).
@@ -413,17 +440,17 @@ Proof.
     repeat split; reflexivity.
 Qed.
 
-Lemma dec_attrs_sound fuel : forall b l, bytes_ok b = true ->
-  dec_attrs Code fuel b = Some l -> enc_attrs l = b.
+Lemma dec_attrs_sound fuel : forall s14 s15 b l, bytes_ok b = true ->
+  dec_attrs Code s14 s15 fuel b = Some l -> enc_attrs l = b.
 Proof.
-  induction fuel as [|fuel IH]; intros b l Hb; destruct b as [|fl [|ty rest]]; cbn [dec_attrs]; try discriminate;
+  induction fuel as [|fuel IH]; intros s14 s15 b l Hb; destruct b as [|fl [|ty rest]]; cbn [dec_attrs]; try discriminate;
     try (intros [= <-]; reflexivity).
   apply bytes_ok_cons in Hb as [_ Hb]. apply bytes_ok_cons in Hb as [_ Hb].
   destruct (ext_len fl) eqn:Ex.
   - destruct rest as [|hi [|lo r]]; try discriminate.
     destruct (take_n (u16 hi lo) r) as [[v rest']|] eqn:Et; [|discriminate].
-    destruct (dec_attr_val Code fl ty v) as [a|] eqn:Ea; [|discriminate].
-    destruct (dec_attrs Code fuel rest') as [l'|] eqn:El; [|discriminate].
+    destruct (dec_attr_val Code s14 s15 fl ty v) as [a|] eqn:Ea; [|discriminate].
+    destruct (dec_attrs Code (seen Code s14 ty 14) (seen Code s15 ty 15) fuel rest') as [l'|] eqn:El; [|discriminate].
     intros [= <-]. apply take_n_inv in Et as [-> Hlen].
     apply bytes_ok_cons in Hb as [_ Hb]. apply bytes_ok_cons in Hb as [Hlo Hb].
     apply bytes_ok_app_inv in Hb as [Hv Hr].
@@ -432,8 +459,8 @@ Proof.
     reflexivity.
   - destruct rest as [|n r]; try discriminate.
     destruct (take_n n r) as [[v rest']|] eqn:Et; [|discriminate].
-    destruct (dec_attr_val Code fl ty v) as [a|] eqn:Ea; [|discriminate].
-    destruct (dec_attrs Code fuel rest') as [l'|] eqn:El; [|discriminate].
+    destruct (dec_attr_val Code s14 s15 fl ty v) as [a|] eqn:Ea; [|discriminate].
+    destruct (dec_attrs Code (seen Code s14 ty 14) (seen Code s15 ty 15) fuel rest') as [l'|] eqn:El; [|discriminate].
     intros [= <-]. apply take_n_inv in Et as [-> Hlen].
     apply bytes_ok_cons in Hb as [_ Hb]. apply bytes_ok_app_inv in Hb as [Hv Hr].
     apply dec_attr_val_sound in Ea as (Hf & Ht & Hval); [|exact Hv]. apply IH in El; [|exact Hr].
@@ -446,7 +473,7 @@ Proof.
   destruct (take_n (u16 wh wl) r1) as [[w [|ah [|al r3]]]|] eqn:Ew; try discriminate.
   destruct (take_n (u16 ah al) r3) as [[a n]|] eqn:Ea; [|discriminate].
   destruct (dec_pfxs Code 32 (length w) w) as [wd|] eqn:Ed1; [|discriminate].
-  destruct (dec_attrs Code (length a) a) as [attrs|] eqn:Ed2; [|discriminate].
+  destruct (dec_attrs Code false false (length a) a) as [attrs|] eqn:Ed2; [|discriminate].
   destruct (dec_pfxs Code 32 (length n) n) as [nlri|] eqn:Ed3; [|discriminate].
   cbn [strict orb]. intros [= <-].
   apply take_n_inv in Ew as [-> Hlw]. apply take_n_inv in Ea as [-> Hla].
@@ -556,14 +583,15 @@ Proof.
   - intros [= <-]. cbn [mpnlri_wf]. rewrite Ef, Hb. apply N.ltb_lt in Ha, Hs. rewrite Ha, Hs. reflexivity.
 Qed.
 
-Lemma dec_attr_val_wf fl ty v a : fl < 256 -> ty < 256 -> bytes_ok v = true ->
+Lemma dec_attr_val_wf s14 s15 fl ty v a : fl < 256 -> ty < 256 -> bytes_ok v = true ->
   lenN v < (if ext_len fl then 65536 else 256) ->
-  dec_attr_val Code fl ty v = Some a -> attr_wf a = true.
+  (ty = 14 -> s14 = false) -> (ty = 15 -> s15 = false) ->
+  dec_attr_val Code s14 s15 fl ty v = Some a -> attr_wf a = true.
 Proof.
-  intros Hfl Hty Hb Hlen Hd. pose proof (dec_attr_val_sound fl ty v a Hb Hd) as (Hf & Ht & Hv).
+  intros Hfl Hty Hb Hlen H14 H15 Hd. pose proof (dec_attr_val_sound s14 s15 fl ty v a Hb Hd) as (Hf & Ht & Hv).
   unfold attr_wf. rewrite Hf, Ht, Hv, Hb. unfold byte_ok.
   apply N.ltb_lt in Hfl, Hty, Hlen. rewrite Hfl, Hty, Hlen. cbn [andb].
-  unfold dec_attr_val in Hd. destruct (ty =? 14) eqn:E14.
+  unfold dec_attr_val in Hd. destruct ((ty =? 14) && negb s14) eqn:E14.
   - destruct v as [|ah [|al [|sf [|nhl r]]]]; try discriminate.
     destruct (take_n nhl r) as [[nh [|rsv body]]|] eqn:Et; try discriminate.
     destruct (dec_mpnlri Code (u16 ah al) sf body) as [n|] eqn:Ed; [|discriminate].
@@ -573,40 +601,60 @@ Proof.
     apply bytes_ok_app_inv in Hb as [_ Hb]. apply bytes_ok_cons in Hb as [_ Hb].
     rewrite Hn. apply N.ltb_lt in Hnhl. rewrite Hnhl. cbn [andb].
     exact (dec_mpnlri_wf (u16 ah al) sf body n (u16_lt _ _ Hah Hal) Hsf Hb Ed).
-  - destruct (ty =? 15) eqn:E15.
+  - destruct ((ty =? 15) && negb s15) eqn:E15.
     + destruct v as [|ah [|al [|sf body]]]; try discriminate.
       destruct (dec_mpnlri Code (u16 ah al) sf body) as [n|] eqn:Ed; [|discriminate].
       injection Hd as <-.
       apply bytes_ok_cons in Hb as [Hah Hb]. apply bytes_ok_cons in Hb as [Hal Hb].
       apply bytes_ok_cons in Hb as [Hsf Hb].
       exact (dec_mpnlri_wf (u16 ah al) sf body n (u16_lt _ _ Hah Hal) Hsf Hb Ed).
-    + injection Hd as <-. rewrite E14, E15. reflexivity.
+    + destruct (((ty =? 14) || (ty =? 15)) && Nat.ltb (length v) 3); [discriminate|]. injection Hd as <-.
+      assert (Hn14 : (ty =? 14) = false).
+      { destruct (ty =? 14) eqn:E; [|reflexivity]. apply N.eqb_eq in E. rewrite (H14 E) in E14. discriminate E14. }
+      assert (Hn15 : (ty =? 15) = false).
+      { destruct (ty =? 15) eqn:E; [|reflexivity]. apply N.eqb_eq in E. rewrite (H15 E) in E15. discriminate E15. }
+      rewrite Hn14, Hn15. reflexivity.
 Qed.
 
-Lemma dec_attrs_wf fuel : forall b l, bytes_ok b = true ->
-  dec_attrs Code fuel b = Some l -> forallb attr_wf l = true.
+Lemma dec_attrs_wf fuel : forall s14 s15 b l, bytes_ok b = true ->
+  okc s14 (count_if is_reach l) -> okc s15 (count_if is_unreach l) ->
+  dec_attrs Code s14 s15 fuel b = Some l -> forallb attr_wf l = true.
 Proof.
-  induction fuel as [|fuel IH]; intros b l Hb; destruct b as [|fl [|ty rest]]; cbn [dec_attrs]; try discriminate;
+  induction fuel as [|fuel IH]; intros s14 s15 b l Hb H14 H15; destruct b as [|fl [|ty rest]]; cbn [dec_attrs]; try discriminate;
     try (intros [= <-]; reflexivity).
   apply bytes_ok_cons in Hb as [Hfl Hb]. apply bytes_ok_cons in Hb as [Hty Hb].
+  assert (Hstep : forall v rest' a l', bytes_ok v = true -> bytes_ok rest' = true ->
+            lenN v < (if ext_len fl then 65536 else 256) -> l = a :: l' ->
+            dec_attr_val Code s14 s15 fl ty v = Some a ->
+            dec_attrs Code (seen Code s14 ty 14) (seen Code s15 ty 15) fuel rest' = Some l' ->
+            forallb attr_wf l = true).
+  { intros v rest' a l' Hv Hr Hlen -> Ea El.
+    pose proof (dec_attr_val_sound _ _ _ _ _ _ Hv Ea) as (_ & Ht & _).
+    apply (okc_step Code s14 is_reach 14) in H14 as [Ha14 H14]; [|reflexivity].
+    apply (okc_step Code s15 is_unreach 15) in H15 as [Ha15 H15]; [|reflexivity].
+    rewrite Ht in H14, H15. unfold is_reach in Ha14. unfold is_unreach in Ha15. rewrite Ht in Ha14, Ha15.
+    cbn [forallb]. rewrite (IH _ _ _ _ Hr H14 H15 El), andb_true_r.
+    apply (dec_attr_val_wf s14 s15 fl ty v a Hfl Hty Hv Hlen); [| |exact Ea].
+    - intros ->. apply Ha14. reflexivity.
+    - intros ->. apply Ha15. reflexivity. }
   destruct (ext_len fl) eqn:Ex.
   - destruct rest as [|hi [|lo r]]; try discriminate.
     destruct (take_n (u16 hi lo) r) as [[v rest']|] eqn:Et; [|discriminate].
-    destruct (dec_attr_val Code fl ty v) as [a|] eqn:Ea; [|discriminate].
-    destruct (dec_attrs Code fuel rest') as [l'|] eqn:El; [|discriminate].
-    intros [= <-]. apply take_n_inv in Et as [-> Hlen].
+    destruct (dec_attr_val Code s14 s15 fl ty v) as [a|] eqn:Ea; [|discriminate].
+    destruct (dec_attrs Code (seen Code s14 ty 14) (seen Code s15 ty 15) fuel rest') as [l'|] eqn:El; [|discriminate].
+    intros [= Hl]. apply take_n_inv in Et as [-> Hlen].
     apply bytes_ok_cons in Hb as [Hhi Hb]. apply bytes_ok_cons in Hb as [Hlo Hb].
     apply bytes_ok_app_inv in Hb as [Hv Hr].
-    cbn [forallb]. rewrite (IH _ _ Hr El), andb_true_r.
-    apply (dec_attr_val_wf fl ty v a Hfl Hty Hv); [|exact Ea]. rewrite Ex, Hlen. apply u16_lt; assumption.
+    apply (Hstep v rest' a l' Hv Hr); [|symmetry; exact Hl|exact Ea|exact El].
+    rewrite Hlen. apply u16_lt; assumption.
   - destruct rest as [|n r]; try discriminate.
     destruct (take_n n r) as [[v rest']|] eqn:Et; [|discriminate].
-    destruct (dec_attr_val Code fl ty v) as [a|] eqn:Ea; [|discriminate].
-    destruct (dec_attrs Code fuel rest') as [l'|] eqn:El; [|discriminate].
-    intros [= <-]. apply take_n_inv in Et as [-> Hlen].
+    destruct (dec_attr_val Code s14 s15 fl ty v) as [a|] eqn:Ea; [|discriminate].
+    destruct (dec_attrs Code (seen Code s14 ty 14) (seen Code s15 ty 15) fuel rest') as [l'|] eqn:El; [|discriminate].
+    intros [= Hl]. apply take_n_inv in Et as [-> Hlen].
     apply bytes_ok_cons in Hb as [Hn Hb]. apply bytes_ok_app_inv in Hb as [Hv Hr].
-    cbn [forallb]. rewrite (IH _ _ Hr El), andb_true_r.
-    apply (dec_attr_val_wf fl ty v a Hfl Hty Hv); [|exact Ea]. rewrite Ex, Hlen. exact Hn.
+    apply (Hstep v rest' a l' Hv Hr); [|symmetry; exact Hl|exact Ea|exact El].
+    rewrite Hlen. exact Hn.
 Qed.
 
 Lemma decode_wf b u : decode Code b = Some u -> mp_unique (u_attrs u) = true -> wf u = true.
@@ -625,7 +673,7 @@ Proof.
   destruct (take_n (u16 wh wl) r1) as [[w [|ah [|al r3]]]|] eqn:Ew; try discriminate.
   destruct (take_n (u16 ah al) r3) as [[a n]|] eqn:Ea; [|discriminate].
   destruct (dec_pfxs Code 32 (length w) w) as [wd|] eqn:Ed1; [|discriminate].
-  destruct (dec_attrs Code (length a) a) as [attrs|] eqn:Ed2; [|discriminate].
+  destruct (dec_attrs Code false false (length a) a) as [attrs|] eqn:Ed2; [|discriminate].
   destruct (dec_pfxs Code 32 (length n) n) as [nlri|] eqn:Ed3; [|discriminate].
   cbn [strict orb]. intros [= <-]. cbn [u_attrs] in Hu.
   apply take_n_inv in Ew as [-> Hlw]. apply take_n_inv in Ea as [-> Hla].
@@ -634,8 +682,9 @@ Proof.
   apply bytes_ok_cons in Eb as [Hah Eb]. apply bytes_ok_cons in Eb as [Hal Eb].
   apply bytes_ok_app_inv in Eb as [Hba Hbn].
   unfold wf. cbn [u_wd u_attrs u_nlri].
-  rewrite (dec_pfxs_wf _ _ _ _ _ Hbw Ed1), (dec_attrs_wf _ _ _ Hba Ed2), (dec_pfxs_wf _ _ _ _ _ Hbn Ed3), Hu.
-  rewrite (dec_pfxs_sound _ _ _ _ Ed1), (dec_attrs_sound _ _ _ Hba Ed2), Hbody, Hlw, Hla, <- El.
+  pose proof Hu as Hu'. unfold mp_unique in Hu'. apply andb_prop in Hu' as [Hu1 Hu2]. apply Nat.leb_le in Hu1, Hu2.
+  rewrite (dec_pfxs_wf _ _ _ _ _ Hbw Ed1), (dec_attrs_wf (length a) false false a attrs Hba Hu1 Hu2 Ed2), (dec_pfxs_wf _ _ _ _ _ Hbn Ed3), Hu.
+  rewrite (dec_pfxs_sound _ _ _ _ Ed1), (dec_attrs_sound _ _ _ _ _ Hba Ed2), Hbody, Hlw, Hla, <- El.
   cbn [andb]. rewrite !andb_true_iff, !N.ltb_lt. repeat split; apply u16_lt; assumption.
 Qed.
 
@@ -649,8 +698,6 @@ Proof.
 Qed.
 
 (* ---------- the End-of-RIB shortcut ---------- *)
-(* unguarded, the shortcut drops routes: 10.0.0.0/8 next to an empty MP_UNREACH_NLRI for IPv6 unicast *)
-Definition upd_eorlike : update := MkUpd [] [AGen 64 1 [0]; AUnreach 128 (MpPfx F6U [])] [MkPfx 8 [10]].
 Lemma lax_eor_drops :
   wf upd_eorlike = true /\ lax_eor upd_eorlike = true /\ is_eor upd_eorlike = false
   /\ events upd_eorlike = [EvA F4U (MkPfx 8 [10]) (u_attrs upd_eorlike)].
@@ -658,7 +705,8 @@ Proof. vm_compute. repeat split; reflexivity. Qed.
 
 Lemma first_reach_none l : existsb is_reach l = false -> first_reach l = None.
 Proof.
-  induction l as [|a l IH]; [reflexivity|]. destruct a; cbn [existsb is_reach orb first_reach]; try discriminate; exact IH.
+  induction l as [|a l IH]; [reflexivity|]. cbn [existsb]. rewrite orb_false_iff. intros [Ha Hl].
+  destruct a; cbn [first_reach]; try (apply IH; exact Hl). discriminate Ha.
 Qed.
 
 (* guarded (the repair), it drops nothing *)
